@@ -8,6 +8,8 @@ open Ft
   dflt     leaf default of the tensor
   spec     {"root": dict|null, "ranks": [dict|null …]}   dict = [[key, value] …] in Python order
   points   [[c …] …] coordinate prefixes queried with getFiber / getSubTree
+  muts     optional [[op …] …]: batches of in-place mutations of the tensor applied between rounds of
+           queries to the SAME Format object; impl.phases then holds one observation per round
   impl     {"outcome": "ok"|"rejected",
             "state": tree snapshot of the tensor, "shape": [n …] (tensor.getShape()),
             "tformat": ["C"|"U" …] the tensor's own rank formats (tags only: the code does not read them),
@@ -87,6 +89,83 @@ def treeTags (dflt : Int) (lv : Nat → FpLevel) : (d : Nat) → T (d + 1) → L
     (if l.format == .U && fl.any (fun e => e.1 < 0 || e.1 ≥ (l.shape : Int)) then ["oob"] else []) ++
     (fl.flatMap (fun e => treeTags dflt lv d e.2))
 
+structure PhaseResult (D : Nat) where
+  oom : Bool := false
+  agree : Bool := true
+  failed : List String := []
+  tags : List String := []
+  model : Json := Json.null
+  state : Option (T (D + 1)) := none
+
+/-- one round of queries against the tensor as it is at that moment -/
+def evalPhase (nR D : Nat) (dflt : Int) (ranksF : List SpecDict) (rootBits : Nat)
+    (points : List (List Int)) (fmtOmitted : List Bool) (prev : Option (T (D + 1))) (impl : Json) :
+    Except String (PhaseResult D) := do
+  let state ← fTree impl "state" (D + 1)
+  if !wfB (D + 1) state then return { oom := true }
+  let shape ← asInts (← field impl "shape")
+  if shape.length != nR || shape.any (· < 0) then return { oom := true }
+  -- levels by height: rank i ↦ height D - i
+  let levelsTop : List FpLevel := (ranksF.zip shape).map (fun es => levelOf es.1 es.2.toNat)
+  let byHeight := levelsTop.reverse
+  let lv : Nat → FpLevel := fun h => byHeight.getD h {}
+  -- rank lists
+  let ranklists ← (← fArr impl "ranklists").mapM (fun r => do (← asList r).mapM parseEntry)
+  let mirror := fpMirrorB D state ranklists && ranklists.length == nR
+  -- numbers reported by the implementation
+  let iRoot ← fNat impl "root"
+  let iRanks ← (← fArr impl "ranks").mapM (·.getNat?)
+  let iTensor ← fNat impl "tensor"
+  let iTensor2 ← fNat impl "tensor2"
+  let iFiber ← (← fArr impl "fiber").mapM optNat
+  let iSub ← (← fArr impl "subtree").mapM optNat
+  -- the model (the code's algorithms)
+  let mRanks := (List.range nR).map (fun i => fpGetRank (lv (D - i)) (ranklists.getD i []))
+  let mTensor := fpGetTensor rootBits lv D ranklists
+  let mFiber := points.map (fpGetFiber lv D state)
+  let mSub := points.map (fpGetSubTree dflt lv D state)
+  let agree := iRoot == rootBits && iRanks == mRanks && iTensor == mTensor &&
+    iTensor2 == mTensor && iFiber == mFiber && iSub == mSub
+  -- the specification (sums recomputed from raw walks of the tree), on the impl's numbers
+  let sRanks := (List.range nR).map (fpRankSpec lv D state)
+  let sTensor := fpTensorSpec rootBits lv D state
+  let sFiber := points.map (fun p => (fpDescend D state p).map (fun it => fiberStmt (lv it.h) (fpOcc it.h it.f)))
+  let sSub := points.map (fpSubTreeAtSpec dflt lv D state)
+  let checks : List (String × Bool) := [
+    ("root", iRoot == rootBits), ("rank", iRanks == sRanks),
+    ("tensor", iTensor == sTensor), ("tensor-after-queries", iTensor2 == sTensor),
+    ("fiber", iFiber == sFiber), ("subtree", iSub == sSub)]
+  let failed := (checks.filter (fun c => !c.2)).map (·.1)
+  let fmts := String.join (levelsTop.map fmtStr)
+  -- the tensor's own rank formats (Tensor.setFormat): state the footprint code does not read
+  let tformat : List String := match field impl "tformat" with
+    | .ok a => (a.getArr?.toOption.getD #[]).toList.map (fun x => x.getStr?.toOption.getD "C")
+    | .error _ => []
+  let ttags := (if tformat.any (· == "U") then ["tensor-rank-U"] else []) ++
+    (if (tformat.zip fmtOmitted).any (fun p => p.1 == "U" && p.2) then ["tensor-rank-U+format-omitted"] else []) ++
+    (if (tformat.zip levelsTop).any (fun p => p.1 != fmtStr p.2) then ["tensor-format≠spec-format"] else [])
+  let stored := fun (st : T (D + 1)) (p : List Int) => (fpFibersAt D st p.length).any (fun e => e.1 == some p)
+  let fiberPts := points.filter (fun p => p.length < nR && p.length > 0)
+  -- branches that need state carried over from an earlier round of queries
+  let ptags := match prev with
+    | none => []
+    | some ps =>
+      (if treeToJson (D + 1) ps != treeToJson (D + 1) state then ["requery:tensor-changed"] else ["requery:same-tensor"]) ++
+      (if fiberPts.any (fun p => !stored ps p && stored state p) then ["requery:absent-point-now-stored"] else []) ++
+      (if fiberPts.any (fun p => stored ps p && !stored state p) then ["requery:stored-point-now-absent"] else []) ++
+      (if fiberPts.any (fun p => stored ps p && stored state p &&
+          fpGetSubTree dflt lv D ps p != fpGetSubTree dflt lv D state p) then ["requery:stored-point-changed"] else [])
+  let tags := [s!"fmt:{fmts}", s!"depth:{nR}", if mirror then "mirror" else "MIRROR_BROKEN"] ++ ttags ++ ptags ++
+    (treeTags dflt lv D state).eraseDups ++
+    (if points.any (fun p => p.length == nR) then ["full-point"] else []) ++
+    (if fiberPts.any (fun p => !stored state p) then ["absent-point"] else [])
+  let model := Json.mkObj [("root", jNat rootBits), ("ranks", jList (mRanks.map jNat)),
+    ("tensor", jNat mTensor), ("fiber", jList (mFiber.map optNatJson)),
+    ("subtree", jList (mSub.map optNatJson)),
+    ("spec_ranks", jList (sRanks.map jNat)), ("spec_tensor", jNat sTensor),
+    ("spec_subtree", jList (sSub.map optNatJson))]
+  pure { agree, failed, tags, model, state := some state }
+
 def handleC18 (j : Json) : Except String Verdict := do
   let nR ← fNat j "D"
   if nR = 0 then return { agree := true, spec := true, tags := ["OUT_OF_MODEL"] }
@@ -114,16 +193,7 @@ def handleC18 (j : Json) : Except String Verdict := do
     if outcome != "ok" then
       return { agree := false, spec := false, model := Json.str "ok", tags := ["impl-raised"] ++ mtags,
                why := "implementation raised on a legal spec: " ++ outcome }
-    let state ← fTree impl "state" (D + 1)
-    if !wfB (D + 1) state then return { agree := true, spec := true, tags := ["OUT_OF_MODEL"] }
-    let shape ← asInts (← field impl "shape")
-    if shape.length != nR || shape.any (· < 0) then
-      return { agree := true, spec := true, tags := ["OUT_OF_MODEL"] }
-    -- levels by height: rank i ↦ height D - i
-    let levelsTop : List FpLevel := (ranksF.zip shape).map (fun es => levelOf es.1 es.2.toNat)
-    let byHeight := levelsTop.reverse
-    let lv : Nat → FpLevel := fun h => byHeight.getD h {}
-    -- what the implementation filled in
+    -- what the implementation filled in (observed once, after construction)
     let filledJ ← field impl "filled"
     let some rootImpl ← parseDict (← field filledJ "root")
       | return { agree := true, spec := true, tags := ["OUT_OF_MODEL"] }
@@ -135,58 +205,33 @@ def handleC18 (j : Json) : Except String Verdict := do
     let filledSpec := specFilledB specRootDefault specRootKeys (rootGiven.getD []) rootImpl &&
       ranksImpl.length == ranksGiven.length &&
       (ranksGiven.zip ranksImpl).all (fun ab => specFilledB specRankDefault specRankKeys (ab.1.getD []) ab.2)
-    -- rank lists
-    let ranklists ← (← fArr impl "ranklists").mapM (fun r => do (← asList r).mapM parseEntry)
-    let mirror := fpMirrorB D state ranklists && ranklists.length == nR
-    -- numbers reported by the implementation
-    let iRoot ← fNat impl "root"
-    let iRanks ← (← fArr impl "ranks").mapM (·.getNat?)
-    let iTensor ← fNat impl "tensor"
-    let iTensor2 ← fNat impl "tensor2"
-    let iFiber ← (← fArr impl "fiber").mapM optNat
-    let iSub ← (← fArr impl "subtree").mapM optNat
     let points ← (← fArr j "points").mapM asInts
-    -- the model (the code's algorithms)
-    let rootBits := fpGetRoot rootF
-    let mRanks := (List.range nR).map (fun i => fpGetRank (lv (D - i)) (ranklists.getD i []))
-    let mTensor := fpGetTensor rootBits lv D ranklists
-    let mFiber := points.map (fpGetFiber lv D state)
-    let mSub := points.map (fpGetSubTree dflt lv D state)
-    let agree := filledAgree && iRoot == rootBits && iRanks == mRanks && iTensor == mTensor &&
-      iTensor2 == mTensor && iFiber == mFiber && iSub == mSub
-    -- the specification (sums recomputed from raw walks of the tree), on the impl's numbers
-    let sRanks := (List.range nR).map (fpRankSpec lv D state)
-    let sTensor := fpTensorSpec rootBits lv D state
-    let sFiber := points.map (fun p => (fpDescend D state p).map (fun it => fiberStmt (lv it.h) (fpOcc it.h it.f)))
-    let sSub := points.map (fpSubTreeAtSpec dflt lv D state)
-    let checks : List (String × Bool) := [
-      ("filled-defaults", filledSpec), ("root", iRoot == rootBits), ("rank", iRanks == sRanks),
-      ("tensor", iTensor == sTensor), ("tensor-after-queries", iTensor2 == sTensor),
-      ("fiber", iFiber == sFiber), ("subtree", iSub == sSub)]
-    let failed := (checks.filter (fun c => !c.2)).map (·.1)
-    let spec := failed.isEmpty
-    let fmts := String.join (levelsTop.map fmtStr)
-    -- the tensor's own rank formats (Tensor.setFormat): state the footprint code does not read
-    let tformat : List String := match field impl "tformat" with
-      | .ok a => (a.getArr?.toOption.getD #[]).toList.map (fun x => x.getStr?.toOption.getD "C")
-      | .error _ => []
     let fmtOmitted := ranksGiven.map (fun e => (lookup (e.getD []) "format").isNone)
-    let ttags := (if tformat.any (· == "U") then ["tensor-rank-U"] else []) ++
-      (if (tformat.zip fmtOmitted).any (fun p => p.1 == "U" && p.2) then ["tensor-rank-U+format-omitted"] else []) ++
-      (if (tformat.zip levelsTop).any (fun p => p.1 != fmtStr p.2) then ["tensor-format≠spec-format"] else [])
-    let tags := [s!"fmt:{fmts}", s!"depth:{nR}", if mirror then "mirror" else "MIRROR_BROKEN"] ++ mtags ++ ttags ++
-      (treeTags dflt lv D state).eraseDups ++
-      (if points.any (fun p => p.length == nR) then ["full-point"] else []) ++
-      (if points.any (fun p => p.length < nR && p.length > 0 &&
-          !(fpFibersAt D state p.length).any (fun e => e.1 == some p)) then ["absent-point"] else [])
-    let model := Json.mkObj [("root", jNat rootBits), ("ranks", jList (mRanks.map jNat)),
-      ("tensor", jNat mTensor), ("fiber", jList (mFiber.map optNatJson)),
-      ("subtree", jList (mSub.map optNatJson)),
-      ("spec_ranks", jList (sRanks.map jNat)), ("spec_tensor", jNat sTensor),
-      ("spec_subtree", jList (sSub.map optNatJson)), ("filled_agree", Json.bool filledAgree)]
+    -- one Format object, queried in one or more phases; between phases the harness mutates the
+    -- tensor in place.  The model is a function of the *current* tensor only.
+    let phases : List Json := match fArr impl "phases" with
+      | .ok l => l
+      | .error _ => [impl]
+    let mut agree := filledAgree
+    let mut failed : List String := if filledSpec then [] else ["filled-defaults"]
+    let mut tags : List String := mtags
+    let mut models : List Json := []
+    let mut prev : Option (T (D + 1)) := none
+    let mut k := 0
+    for ph in phases do
+      let r ← evalPhase nR D dflt ranksF (fpGetRoot rootF) points fmtOmitted prev ph
+      if r.oom then return { agree := true, spec := true, tags := ["OUT_OF_MODEL"] }
+      agree := agree && r.agree
+      failed := failed ++ r.failed.map (fun f => if k == 0 then f else s!"{f}@{k}")
+      tags := tags ++ r.tags ++ (if k > 0 then [s!"phase:{k}"] else [])
+      models := models ++ [r.model]
+      prev := r.state
+      k := k + 1
+    let spec := failed.isEmpty
     -- the model's numbers are only shipped back when something is off (keeps big runs small)
-    let model := if agree && spec then Json.null else model
-    pure { agree, spec, model, tags,
+    let model := if agree && spec then Json.null
+      else Json.mkObj [("filled_agree", Json.bool filledAgree), ("phases", jList models)]
+    pure { agree, spec, model, tags := tags.eraseDups,
            why := if spec then "" else "spec fails on: " ++ ", ".intercalate failed }
 
 end FtDriver
